@@ -120,11 +120,16 @@ func Load(dir string, cfg Config, patterns ...string) (*World, error) {
 			w.SSA[p.PkgPath] = spkgs[i]
 			// Function bodies are built for the module's own packages only;
 			// dependencies stay declared-only (external callees are table-driven).
-			spkgs[i].Build()
+			if os.Getenv("LOWCHECK_FULLSSA") == "" {
+				spkgs[i].Build()
+			}
 		}
 		if w.Sizes == nil && p.TypesSizes != nil {
 			w.Sizes = p.TypesSizes
 		}
+	}
+	if os.Getenv("LOWCHECK_FULLSSA") != "" {
+		prog.Build() // thorough tier: bodies of every dependency too (VTA sees flows through them)
 	}
 	dbgTime("ssa built")
 	w.AllFns = ssautil.AllFunctions(prog)
